@@ -102,13 +102,11 @@ type rangeIter struct {
 	mt     *types.Map
 }
 
-var nact int
-
 func (vc *VC) newFrame(fn *ssa.Function, depth int) *frame {
-	nact++
+	vc.nact++
 	pfx := fmt.Sprintf("%s!", fn.Name())
 	if depth > 0 {
-		pfx = fmt.Sprintf("%s#%d!", fn.Name(), nact)
+		pfx = fmt.Sprintf("%s#%d!", fn.Name(), vc.nact)
 	}
 	return &frame{vc: vc, fn: fn, pfx: pfx, vals: map[ssa.Value]Val{}, edges: map[[2]int]*edgeState{}, depth: depth, loops: map[int]*loopInfo{}, rangeIters: map[ssa.Value]*rangeIter{}, deferLimit: -1}
 }
@@ -1341,7 +1339,7 @@ func (vc *VC) copyElems(m Mem, comp, darr, doff, sarr, soff, n string) {
 	D := app("select", M, darr)
 	S := app("select", M, sarr)
 	a2 := vc.fresh("cpy", inner)
-	vc.assume(fmt.Sprintf("(forall ((_j (_ BitVec 64))) (! (= (select %s _j) (ite (and (bvule %s _j) (bvult (bvsub _j %s) %s)) (select %s (bvadd %s (bvsub _j %s))) (select %s _j))) :pattern ((select %s _j))))",
+	vc.assume(fmt.Sprintf("(forall ((_j (_ BitVec 64))) (! (= (select %s _j) (ite (and (bvule %s _j) (bvult _j (bvadd %s %s))) (select %s (bvadd %s (bvsub _j %s))) (select %s _j))) :pattern ((select %s _j))))",
 		a2, doff, doff, n, S, soff, doff, D, a2))
 	vc.set(m, comp, app("store", M, darr, a2))
 }
